@@ -25,13 +25,17 @@ MODES = ["best", "separate", "joined", "all", "single"]
 def planted_input(rng: random.Random):
     n = rng.randint(60, 260)
     # spacing >= 2 kb, mean >= 9 kb
-    x = rng.randint(3000, 40000)
+    near_start = rng.random() < 0.35          # first labels close to the reference start (refinement window < 0)
+    x = rng.randint(0, 2500) if near_start else rng.randint(3000, 40000)
     xs = []
-    for _ in range(n):
+    for k in range(n):
         xs.append(x)
-        x += 2000 + int(rng.expovariate(1 / rng.choice([7500., 9000., 14000.])))
-    while (xs[-1] - xs[0]) / (n - 1) < 9000:
-        xs = [int(v * 1.15) for v in xs]
+        if near_start and k < 9:
+            x += rng.randint(2000, 2600)
+        else:
+            x += 2000 + int(rng.expovariate(1 / rng.choice([7500., 9000., 14000.])))
+    while (xs[-1] - xs[0]) / (n - 1) < 9000:      # stretch the tail only, keeping every gap >= 2 kb
+        xs = xs[:10] + [xs[9] + int((v - xs[9]) * 1.15) for v in xs[10:]]
     dx = pipecases.deci(xs, rng if rng.random() < 0.5 else None)
     ref = {"id": rng.choice([1, 4, 17]), "len": dx[-1] + rng.randint(10, 300000), "x": dx, "bp": xs}
     qrys = []
@@ -40,7 +44,7 @@ def planted_input(rng: random.Random):
         w = rng.randint(15, 45)
         if n - w - 8 < 4:
             w = 15
-        w0 = rng.randint(4, n - w - 4)
+        w0 = rng.choice([4, 4, 5, n - w - 4, rng.randint(4, n - w - 4), rng.randint(4, n - w - 4)])
         off = rng.choice([0, 7, 1234, 56789])
         tail = rng.choice([1, 15, 4000, 120000])
         rev = rng.random() < 0.5
